@@ -8,6 +8,7 @@ sys.path.insert(0, os.path.join(os.path.dirname(os.path.dirname(os.path.abspath(
 import pe as _pe
 import pgp as _pgp
 import macho as _macho
+import magic as _magic
 
 TIE = "corr:c11"
 TIE_THEOREM = ("Relic.Model.{PE,ApkBlock,CsBlob,Binpatch} vs lib/authenticode, signers/apk, lib/fruit/csblob, lib/signxap, lib/binpatch "
@@ -64,6 +65,8 @@ def canon_model(op, mres):
         return _pgp.canon_model(op, mres)
     if _tok(op) == "MACHO":
         return _macho.canon_model(op, mres)
+    if _tok(op) == "MAGIC":
+        return _magic.canon_model(op, mres)
     return mres
 
 
@@ -82,6 +85,8 @@ def agree(op, il, mres, tag):
         return _pgp.equiv(op, il, mres)
     if t == "MACHO":
         return _macho.equiv(op, il, mres)
+    if t == "MAGIC":
+        return _magic.equiv(op, il, mres)
     if t == "C11":
         return mres == "safe" and il in ("ok", "err")
     if t in MODEL_TOKENS:
@@ -111,6 +116,8 @@ def nontrivial(op, mres, tag):
         return _pgp.nontrivial(op, mres, tag)
     if t == "MACHO":
         return _macho.nontrivial(op, mres, tag)
+    if t == "MAGIC":
+        return _magic.nontrivial(op, mres, tag)
     if t == "C11":
         f = op.split(" ")
         return len(f) == 5 and (f[4] != "-" or f[3].startswith(("hex:", "appxpe:", "tx:")))
@@ -125,6 +132,8 @@ def branch(op, mres, tag):
         return _pgp.branch(op, mres, tag)
     if t == "MACHO":
         return _macho.branch(op, mres, tag)
+    if t == "MAGIC":
+        return _magic.branch(op, mres, tag)
     f = op.split(" ")
     if t == "C11":
         return "%s:%s" % (f[1], f[2])
@@ -153,6 +162,8 @@ def predicate(op, il, mres, tag):
         if r is None and il.startswith(("abort", "timeout", "alloc", "harness-error")):
             return ("Relic.Props.C11 (macho %s)" % il.split(" ")[0], mres, "Mach-O / code-directory parser: " + il)
         return r
+    if t == "MAGIC":
+        return _magic.predicate("C11", op, il, mres, tag)
     if il.startswith(BAD) or (t == "C11" and il not in ("ok", "err")):
         what = il.split(" ")[0]
         names = {"panic": "no_panic", "abort": "no_process_abort", "timeout": "terminates", "alloc": "alloc_bounded"}
@@ -165,6 +176,8 @@ def matches_known(k, op, il, mres, tag):
     """identity = outcome class + site (function named by the harness); timeouts have no site: identity = outcome + entry point"""
     if _tok(op) == "PGP":
         return _pgp.matches_known(k, op, il, mres, tag)
+    if _tok(op) == "MAGIC":
+        return _magic.matches_known(k, op, il, mres, tag)
     ident = k.get("identity", {})
     site, outcome = ident.get("site", ""), ident.get("outcome", "panic")
     if not site:
@@ -190,3 +203,8 @@ def matches_known(k, op, il, mres, tag):
         return s == site and (not kinds or kind in kinds)
     # alloc <site> <MiB>; the heap profile cannot always name the site of a multi-GiB request: then the entry point decides
     return got == site or (got == "?" and _entry(op) in ident.get("entries", []))
+
+
+def generate(ctx):
+    """T-gen for the detection fragment (Relic.Props.C11.detect_table_is_current): lean/Relic/Generated/Magic.lean"""
+    return [g.replace("Relic.Props.C01.generated_rules_eq", "Relic.Props.C11.detect_table_is_current") for g in _magic.generate(ctx)[:1]]
